@@ -246,8 +246,10 @@ def build_unit(unit):
     return text, linemap, funcs, rewrites_info
 
 
-def run_verus(path, extra=None, timeout=1800):
-    cmd = ['verus', path, '--multiple-errors', '200', '--output-json', '--time', '--error-format=json'] + (extra or [])
+def run_verus(path, extra=None, timeout=900):
+    cmd = ['verus', path, '--output-json', '--time', '--error-format=json'] + (extra or [])
+    if '--multiple-errors' not in cmd:
+        cmd += ['--multiple-errors', '200']
     t0 = time.time()
     try:
         p = subprocess.run(cmd, capture_output=True, text=True, timeout=timeout, cwd=os.path.dirname(path))
